@@ -163,7 +163,24 @@ def _rw_values_map(text):
     return re.subn(r'chunk\.values\.map\(&map\)', 'mapped(chunk.values, map)', text)
 
 
+def _rw_map_filter_enumerate(text):
+    # RW24: `for (i, value) in chunk.values.map(map).filter(filter).enumerate() { BODY }` ->
+    #       `let mut i: usize = 0; let mut mf__ = map_filter(chunk.values, map, filter); while let Some(value) = mf__.next() { BODY i += 1; }`
+    # (std's Map/Filter adaptors over the chunk become one assumed iterator that yields at most as many elements as
+    #  the chunk holds, each a mapped value accepted by the filter; Enumerate is written out)
+    m = re.search(r'for \((\w+), (\w+)\) in chunk\.values\.map\(map\)\.filter\(filter\)\.enumerate\(\) \{', text)
+    if not m:
+        return text, 0
+    src = Src(text)
+    ob = m.end() - 1
+    cb = src.match_close(ob)
+    head = 'let mut %s: usize = 0; let mut mf__ = map_filter(chunk.values, map, filter); while let Some(%s) = mf__.next() {' % (m.group(1), m.group(2))
+    new = text[:m.start()] + head + text[ob + 1:cb] + '    %s += 1;\n                ' % m.group(1) + text[cb:]
+    return new, 1
+
+
 REWRITES = {
+    'RW24': ('for (i, v) in chunk.values.map(map).filter(filter).enumerate() -> explicit counter over an assumed map+filter iterator (T6)', _rw_map_filter_enumerate),
     'RW22': ('iter.ids_and_values()<chain>.for_each(..) -> ids_values_for_each(iter) (chunk-size-1 arm of map_col::task is one std adaptor chain: assumed, T6; covered by the bounded Kani harnesses)', _rw_ids_values_for_each),
     'RW23': ('chunk.values.map(&map) -> mapped(chunk.values, map) (std Map adaptor)', _rw_values_map),
     'RW20': ('chunk<chain>.count() -> chunk_count(chunk) (assumption T6: the number of survivors of the chunk)', _rw_chunk_count),
